@@ -20,6 +20,7 @@ PolyFailing(ev) ==
         PV(x) == IF big THEN x \div 10 ELSE x
     IN  {<<"contain", QueryAt(lo, hi, n)>> :
             n \in {m \in DOMAIN ev.res : ev.res[m] # B(Inside(P, QueryAt(lo, hi, m)))}}
+        \cup (IF ev.lat THEN {} ELSE {<<"measure_off_lattice_or_not_finite">>})
         \cup (IF ev.sarea = SignedArea2(P) THEN {} ELSE {<<"signed_area">>})
         \cup (IF ev.area = Area2(P) * ev.count THEN {} ELSE {<<"area_times_repetition">>})
         \cup (IF PV(ev.perim1000) >= pb[1] * ev.count /\ PV(ev.perim1000) <= pb[2] * ev.count + 1
